@@ -139,9 +139,10 @@ class Scale(EnvironmentFilter):
         #get the potential keys to scale
         potential_keys = None
         if is_dense_context:
-            potential_keys = [i for i,v in enumerate(first_context) if isinstance(v,(int,float))]
+            #a value that is missing in the first interaction says nothing about its feature, the fitting values decide (see _get_shift_and_scale)
+            potential_keys = [i for i,v in enumerate(first_context) if isinstance(v,(int,float)) or v is None]
         if is_sparse_context:
-            unscalable_cols = {k for k,v in first_context.items() if not isinstance(v,(int,float))}
+            unscalable_cols = {k for k,v in first_context.items() if not (isinstance(v,(int,float)) or v is None)}
             potential_keys  = set().union(*map(methodcaller("keys"),fitting_contexts)) - unscalable_cols
         if is_value_context:
             potential_keys = [0]
@@ -199,6 +200,7 @@ class Scale(EnvironmentFilter):
         try:
             #nan != nan so the second test drops nan (a nan in the window would otherwise poison or mis-order the statistics)
             values = [v for v in values if v is not None and v == v]
+            if not all(isinstance(v,(int,float)) for v in values): return None
             shift = self._shift_value(values)
             scale = self._scale_value(values,shift)
 
